@@ -62,6 +62,70 @@ def h_routes(E, N, profile):
     return cl
 
 
+def h_routes_group(E, shape, profile):
+    """Same 2-run from a constructed post-slicing state (slice ids injected after the real constructor), so that bundles of
+    overlapping slices - where the grouping parameters are read - exist at small size."""
+    import copy
+    from ampycloud import dynamic
+    from ampycloud.data import CeiloChunk
+    from ampycloud.utils import utils
+    from models import stubs
+    stubs.OPTIONS['single_exact'] = False
+    N = len(shape)
+    hs = [E.real('h%d' % i) for i in range(N)]
+    ds = [E.real('dt%d' % i) for i in range(N)]
+    for i in range(N):
+        E.assume(And(hs[i] >= 0, hs[i] < 100000))
+        if i:
+            E.assume(ds[i - 1] < ds[i])
+    sid = [int(c) for c in shape]
+    P = prm.percall_profile(E, profile)
+    prm.valid_percall(E, P)
+    base = dynamic.get_default_prms()
+    base['MAX_HITS_OKTA0'] = 0
+    Ga = copy.deepcopy(base)
+    n = 0
+    for path, v in leaves(Ga):
+        try:
+            get_leaf(P, path)
+            n += 1
+            set_leaf(Ga, path, E.real('poison%d' % n) if not isinstance(v, list) else [E.real('poison%da' % n), E.real('poison%db' % n)])
+        except (KeyError, TypeError):
+            pass
+    Gb = copy.deepcopy(base)
+    for path, v in leaves(Gb):
+        try:
+            set_leaf(Gb, path, get_leaf(P, path))
+        except (KeyError, TypeError):
+            pass
+
+    def go(G, percall):
+        orig = utils.check_data_consistency
+        utils.check_data_consistency = pipeline._light_checker
+        try:
+            with prm.GlobalPrms(G), WarningLog():
+                def run():
+                    ch = CeiloChunk(frame({'ceilo': ['a'] * N, 'dt': list(ds), 'height': list(hs), 'type': [1] * N}), prms=percall)
+                    ch.data['slice_id'] = list(sid)
+                    ch.metarize('slices')
+                    ch.find_groups()
+                    ch.find_layers()
+                    return ch
+                return outcome(run)
+        finally:
+            utils.check_data_consistency = orig
+    ka, cha = go(Ga, P)
+    kb, chb = go(Gb, None)
+    cl = [('both routes end alike', ka == kb and ka == 'ok')]
+    if ka != 'ok' or kb != 'ok':
+        E.note('outcomes', '%s / %s %s' % (ka, kb, str(cha)[:200]))
+        return cl
+    iso = [bool(x) for x in col(cha.slices, 'isolated')]
+    E.cover('a bundle of overlapping slices', not all(iso))
+    cl.append(('same tables, assignments and messages', pipeline.same_snapshot(pipeline.snapshot(cha), pipeline.snapshot(chb))))
+    return cl
+
+
 TOP = ['MSA', 'MIN_SEP_VALS', 'SLICING_PRMS', 'LAYERING_PRMS', 'LOWESS']
 
 
@@ -145,6 +209,10 @@ HARNESSES = [
     H('H-routes', h_routes, quick=[(1, k) for k in range(10)] + [(2, 0), (2, 2), (2, 3), (2, 9)], thorough=[(1, k) for k in range(10)] + [(2, k) for k in (0, 1, 2, 3, 4, 6, 9)], float_model='R', scripted=True,
       cover=['a poisoned global leaf is overridden per call', 'unknown key'],
       doc='2-run: per-call dictionary over a poisoned global vs edited global: same chunk parameters, tables, messages; unknown keys warn once and add nothing'),
+    H('H-routes-group', h_routes_group, quick=[('001', 2), ('001', 3), ('001', 1)], thorough=[(sh, k) for sh in ('001', '011', '0012') for k in (1, 2, 3, 4, 5)],
+      float_model='R', scripted=True, cover=['a bundle of overlapping slices'],
+      assumptions=['post-slicing state constructed by injecting slice ids after the real constructor; per-bundle clustering answers an arbitrary partition'],
+      doc='2-run from a post-slicing state with a bundle of overlapping slices: grouping and layering read the chunk parameters only'),
     H('H-reset', h_reset, quick=[()], thorough=[()], cover=['partial reset', 'full reset', 'key added in place', 'key removed in place'], float_model='R',
       doc='real reset_prms after nested in-place edits of every leaf, for every choice of names'),
     H('H-yaml', h_yaml, quick=[()], thorough=[()], cover=['ran'],
